@@ -2,6 +2,9 @@
 
 use vharness::report::Tier;
 
+#[global_allocator]
+static GLOBAL: vharness::alloc::CountingAlloc = vharness::alloc::CountingAlloc;
+
 fn main() {
     let args: Vec<String> = std::env::args().collect();
     let code = real_main(&args);
@@ -71,6 +74,10 @@ fn real_main(args: &[String]) -> i32 {
                 }
             }
         }
+        Some("worker") => match args.get(2).map(String::as_str) {
+            Some("c02") => vharness::props::c02::worker_main(args.get(3).map(String::as_str).unwrap_or("")),
+            _ => usage(),
+        },
         Some("crash-driver") => vharness::props::c06::driver_main(&args[2..]),
         _ => usage(),
     }
